@@ -5,6 +5,7 @@
 pub mod gen;
 pub mod git;
 pub mod isolate;
+pub mod repogen;
 
 use serde_json::{json, Map, Value};
 use std::collections::{BTreeMap, HashSet};
